@@ -56,6 +56,18 @@ def run(ctx, prop):
     cases = [gen.gen_case(ctx.rng, opts, cid=f"C13-{ctx.seed}-{i}") for i in range(n)]
     for k in ([7, 8, 15, 29] if ctx.tier == "quick" else [3, 4, 7, 8, 14, 15, 16, 28, 29, 30, 57, 58]):
         cases.append(boundary_case(ctx.rng, k))
+    # the same bare name in several -I directories (and next to the main file): which one is
+    # taken must be a function of the command line only
+    for k, dirs in enumerate((["inc_a", "inc_b"], ["inc_b", "inc_a"], ["inc_a", "inc_b", "inc_c"], ["inc_c", "inc_a"])):
+        files = [{"path": "main.idl", "nodes": [{"k": "include", "path": "common.idl"},
+                  {"k": "interface", "name": "IUse", "base": "IBase", "members": [
+                      {"k": "method", "name": "use", "optional": False, "doc": None, "params": [{"dir": "in", "type": "Common", "arr": None, "name": "c"}]}]}]}]
+        for j, d in enumerate(["inc_a", "inc_b", "inc_c"] + (["."] if k % 2 else [])):
+            files.append({"path": os.path.normpath(os.path.join(d, "common.idl")), "nodes": [
+                {"k": "struct", "name": "Common", "fields": [{"type": "uint32", "count": j + 1, "name": f"from_{j}"}]},
+                {"k": "interface", "name": "IBase", "base": None, "members": [{"k": "error", "name": f"E{j}"}] + [
+                    {"k": "method", "name": f"m{q}", "optional": False, "doc": None, "params": []} for q in range(j + 1)]}]})
+        cases.append({"id": f"C13-ambiguous-{k}", "files": files, "main": "main.idl", "incdirs": dirs})
     oracle_fail, disagree, samples = [], [], []
     hist = {"runs": 0, "cases": 0, "variants_per_backend": 0}
     distinct = set()
@@ -87,6 +99,9 @@ def run(ctx, prop):
                 # (label, main argument, -I arguments, cwd)
                 variants.append(("rel-cwd-root", "main.idl", inc, rootA))
                 variants.append(("rel-cwd-root-again", "main.idl", inc, rootA))
+                if case["id"].startswith("C13-ambiguous"):
+                    for rep in range(6):
+                        variants.append((f"repeat-{rep}", "main.idl", inc, rootA))
                 variants.append(("rel-cwd-root-third", "./main.idl", ["./" + d for d in inc], rootA))
                 variants.append(("abs-cwd-slash", os.path.join(rootA, "main.idl"), [os.path.join(rootA, d) for d in inc], "/"))
                 variants.append(("relocated", os.path.join(rootB, "main.idl"), [os.path.join(rootB, d) for d in inc], tmp))
